@@ -292,7 +292,9 @@ func decoratorOrder(c *Ctx) {
 			for _, in := range b.Instrs {
 				if call, okc := in.(ssa.CallInstruction); okc && methodNameOf(call) == "SetAnteHandler" {
 					e := w.ExprOf(call.Common().Args[len(call.Common().Args)-1])
-					if e.Any(func(x *ir.Expr) bool { return x.Op == "call" && x.Name == "ante.NewAnteHandler" }) {
+					if e.Any(func(x *ir.Expr) bool {
+						return x.Op == "call" && (x.Name == "ante.NewAnteHandler" || strings.HasSuffix(x.Name, "types.ChainAnteDecorators"))
+					}) {
 						ok = true
 					}
 				}
@@ -323,7 +325,7 @@ func amountRule(c *Ctx) {
 		hasSpend := lhs.Any(func(x *ir.Expr) bool { return x.Op == "call" && strings.HasSuffix(x.Name, ".SpendableCoins") })
 		rhs := w.Expand(a[1], 3)
 		feeD := rhs.Any(func(x *ir.Expr) bool {
-			return x.Op == "call" && strings.HasSuffix(x.Name, "types.Coins).Find") && len(x.Args) == 2 && x.Args[0].Op == "param" && isEntParam(c, x.Args[1], "Denom")
+			return x.Op == "call" && strings.HasSuffix(x.Name, "types.Coins).Find") && len(x.Args) == 2 && isParamPath(x.Args[0]) && isEntParam(c, x.Args[1], "Denom")
 		})
 		return hasLocked && feeD && hasSpend == plusSpendable
 	}
@@ -341,7 +343,7 @@ func amountRule(c *Ctx) {
 			g1 := guarded(func(p ir.Pred) bool { return isHasNeg(p, true, false, f) })
 			g2 := guarded(func(p ir.Pred) bool { return isHasNeg(p, false, true, f) })
 			r.Require(g1 && g2, "A2.amount-rule", key+"|all-locked", pos(c, ue.Site), "the whole locked amount is unlocked only when it does not cover the fee but spendable + locked does", fmt.Sprintf("locked<fee guard=%v, spendable+locked>=fee guard=%v", g1, g2))
-		case amt.Op == "param":
+		case isParamPath(amt):
 			if guarded(func(p ir.Pred) bool { return isHasNeg(p, false, false, f) }) {
 				n++
 				r.OK("A2.amount-rule", key+"|fee", pos(c, ue.Site), "the fee is unlocked only when locked − fee (fee denomination) is not negative")
@@ -373,4 +375,12 @@ func amountRule(c *Ctx) {
 		classify(ue, f, nil, w.ExprOf(ue.Call.Common().Args[3]), fmt.Sprintf("%s|undelegate%d", fn(f), i), 0)
 	}
 	r.Require(n == 2, "A2.amount-rule", "site-count", "", "there are exactly two unlock sites", fmt.Sprintf("%d", n))
+}
+
+// isParamPath: a parameter, or a field (of a field ...) of one — a value the function was handed, possibly inside a bundle struct.
+func isParamPath(e *ir.Expr) bool {
+	for e != nil && e.Op == "field" && len(e.Args) == 1 {
+		e = e.Args[0]
+	}
+	return e != nil && e.Op == "param"
 }
